@@ -504,6 +504,9 @@ func (fr *Frame) callWithSpec(callee *ssa.Function, spec *FuncSpec, args []Val, 
 	}
 	if key == "sync.(*Mutex).Lock" || key == "sync.(*Mutex).Unlock" {
 		fr.monitorHook(key == "sync.(*Mutex).Lock", args[0], st, pre, pos)
+		if key == "sync.(*Mutex).Lock" {
+			fr.assumeUnpublished(fr.cur, st)
+		}
 	}
 	if callee == nil {
 		return nil
@@ -542,7 +545,7 @@ func (fr *Frame) monitorHook(isLock bool, mu Val, st *State, pre *State, pos tok
 		env = mkEnv(st)
 		for _, inv := range append(append([]Clause{}, mon.Invariants...), mon.Assumed...) {
 			inv := inv
-			fx.assume(st.guard, fx.hyp(func() T { return env.eval(inv.E).asBool() }))
+			fx.labelled(inv.Label, func() { fx.assume(st.guard, fx.hyp(func() T { return env.eval(inv.E).asBool() })) })
 		}
 		for _, inv := range mon.Assumed {
 			fx.noteAssumption("UNCHECKED data-structure invariant assumed when " + mkey + " is acquired (not proved at Unlock): " + inv.Label)
@@ -1480,7 +1483,9 @@ func (fx *FnCtx) keyTerm(k Val) T {
 			fx.decls.Raw(`(assert (forall ((a (Array Int Int)) (ao Int) (al Int) (i Int)) (! (=> (and (<= 0 i) (< i al)) (= (|str.idat| (|str.id| a ao al) i) (select a (+ ao i)))) :pattern ((|str.id| a ao al) (select a (+ ao i))))))`)
 			// ... and equal contents have equal ids when both strings have the
 			// same length term (the pairs that arise from copies)
-			fx.decls.Raw(`(assert (forall ((a (Array Int Int)) (ao Int) (b (Array Int Int)) (bo Int) (l Int)) (! (=> (str.eq a ao l b bo l) (= (|str.id| a ao l) (|str.id| b bo l))) :pattern ((|str.id| a ao l) (|str.id| b bo l)))))`)
+			if !fx.eng.noContentIDExt {
+				fx.decls.Raw(`(assert (forall ((a (Array Int Int)) (ao Int) (b (Array Int Int)) (bo Int) (l Int)) (! (=> (str.eq a ao l b bo l) (= (|str.id| a ao l) (|str.id| b bo l))) :pattern ((|str.id| a ao l) (|str.id| b bo l)))))`)
+			}
 		}
 		return app("|str.id|", k.strArr(), k.strOff(), k.strLen())
 	}
@@ -1597,7 +1602,7 @@ func (fr *Frame) intrinsic(key string, callee *ssa.Function, args []Val, st *Sta
 		// container-of: from the address of an embedded field back to the
 		// enclosing object (inverse of the embedded-field address)
 		fx.noteAssumption("structPtr(p, Offsetof(T{}.f)) is the inverse of taking the address of the embedded field f")
-		out := mkInt(shapeOf(callee.Signature.Results().At(0).Type()), fx.define("owner", sInt, app("div", sub(args[0].t(), embBase), "64")))
+		out := mkInt(shapeOf(callee.Signature.Results().At(0).Type()), fx.define("owner", sInt, fx.embOwner(args[0].t())))
 		return &out, true
 	}
 	switch key {
